@@ -54,9 +54,10 @@ Next ==
 Spec == Init /\ [][Next]_mvars
 
 Bound == Len(hist) <= MaxOps
-\* workspace ids only matter up to equality between live objects
+\* workspace ids only matter up to equality between live objects; the cached layout key is part of the view: a cache never
+\* built and a cache built for an earlier configuration are different hidden states (the second one holds stale entries)
 AbsObj(o) == [cfgv |-> o.cfgv, n |-> o.n, flags |-> o.flags, valid |-> o.valid, msg |-> o.msg, tref |-> o.tref, sref |-> o.sref,
-              dirty |-> o.lay.dirty, keyok |-> o.lay.key = LayKey(o), hasws |-> o.ws # 0, stale |-> o.staleLayout]
+              dirty |-> o.lay.dirty, key |-> o.lay.key, hasws |-> o.ws # 0, stale |-> o.staleLayout]
 View == <<[i \in OLive |-> AbsObj(opts[i])], {<<i, j>> \in OLive \X OLive : i # j /\ opts[i].ws # 0 /\ opts[i].ws = opts[j].ws},
           DOMAIN umaps, last>>
 EmitScripts == Bound /\ (Emit /\ Len(hist) > 0 => PrintT(<<"SCRIPT", ToJson(hist)>>))
